@@ -35,3 +35,21 @@ def lemma_permuted_models(models, priors, permuted, permuted_priors):
     r1 = compare_models(models, priors)
     r2 = compare_models(permuted, permuted_priors)
     return (r1, r2)
+
+
+def lemma_scale_sum(n):
+    """A(i+1)=A(i)+a(i), B(i+1)=B(i)+a(i)/c, c != 0  =>  B(n) = A(n)/c   (linearity of a finite sum)"""
+    j = 0
+    while j < n:
+        inst(j)
+        j = j + 1
+    return j
+
+
+def lemma_monotone_cum(a, b):
+    """v >= 0, cum prefix sums, 0 <= a <= b <= n  =>  cum(a) <= cum(b)"""
+    j = a
+    while j < b:
+        inst(j)
+        j = j + 1
+    return j
